@@ -607,6 +607,9 @@ func runC17(c *Check, a *Analysis) {
 	for _, name := range []string{"minHeap", "heapDown"} {
 		fn := p.Fn(name)
 		if fn == nil {
+			if name == "heapDown" && p.Fn("minHeap") != nil && len(callsIn(p.Fn("minHeap"), "(list).Swap")) > 0 {
+				continue // the sift-down step is written in line in minHeap
+			}
 			c.Undecided("R-LEAST-TIME", name+" not found")
 			continue
 		}
